@@ -170,6 +170,20 @@ inductive MemOp where
   | decomposition (split : Bool)
   | intermolecular (accept : Bool)
   | synthesis (accept : Bool)
+  /-- `BestIndividualUpdate::init`: `state.insert(BestIndividual::default())` — a best-so-far that is already in
+  the state (an earlier run on the same `State`) is REPLACED by the empty one -/
+  | initBest
+  /-- `ElitistArchiveUpdate::init`: `state.insert(ElitistArchive::new())` -/
+  | initArchive
+  /-- `PersonalBestParticlesInit::init`: `state.insert(BestParticles::new(Vec::new()))` -/
+  | initPbest
+  /-- `GlobalBestParticleUpdate::init`: `state.entry::<BestParticle>().or_insert(BestParticle::new(None))` — an
+  entry that is already in the state is KEPT -/
+  | initGbest
+  /-- `ChemicalReactionInit::init`: `state.insert(ChemicalReaction::default())` -/
+  | initMols
+  /-- `PopulationEvaluator::init`: `state.insert(Evaluations(0))` -/
+  | initEvals
   deriving Repr
 
 variable [DecidableEq O]
@@ -323,6 +337,12 @@ def memStep (f : Nat → O) (x : PMX O) : MemOp → Out (PMX O)
   | .decomposition s => decomposition s x
   | .intermolecular a => intermolecular a x
   | .synthesis a => synthesis a x
+  | .initBest => .ok { x with pm := { x.pm with best := none } }
+  | .initArchive => .ok { x with pm := { x.pm with archive := [] } }
+  | .initPbest => .ok { x with pbest := [] }
+  | .initGbest => .ok { x with gbest := match x.gbest with | some g => some g | none => none }
+  | .initMols => .ok { x with mols := [] }
+  | .initEvals => .ok { x with pm := { x.pm with evals := 0 } }
 
 /-- A sequence of steps; an `Err` or a panic ends the run (`Configuration::run` propagates the error). -/
 def memRun (f : Nat → O) : PMX O → List MemOp → Out (PMX O)
@@ -331,6 +351,36 @@ def memRun (f : Nat → O) : PMX O → List MemOp → Out (PMX O)
     match memStep f x op with
     | .ok x' => memRun f x' ops
     | .err x' => .err x'
+    | .panic => .panic
+
+/-! ### Consecutive runs on one `State` (public `Configuration::run`)
+
+`Configuration::run(problem, state)` is `init` of every component (in order), `require`, `execute`; "the caller
+is responsible for initializing `state` properly". When a state that was used before is handed in again —
+possibly for ANOTHER INSTANCE of the problem, i.e. another objective function — everything the earlier run
+left in it is still there unless the caller or a component's `init` replaces it. -/
+
+/-- The `init` steps. -/
+def MemOp.isInit : MemOp → Bool
+  | .initBest | .initArchive | .initPbest | .initGbest | .initMols | .initEvals => true
+  | _ => false
+
+/-- The caller's part: a new, empty population stack (what `optimize_with` does for a new state). -/
+def callerReset (x : PMX O) : PMX O := x.withStack []
+
+/-- One `Configuration::run` of a configuration whose components' `init`s are `inits` and whose execution is
+`ops`, with objective function `f`, on a state the caller has reset. -/
+def configRun (f : Nat → O) (inits ops : List MemOp) (x : PMX O) : Out (PMX O) :=
+  memRun f (callerReset x) (inits ++ ops)
+
+/-- Consecutive runs on one state, each with its own objective function; a run that stopped with an `Err`
+leaves its state to the next one, a panic ends everything. -/
+def reruns : PMX O → List ((Nat → O) × List MemOp × List MemOp) → Out (PMX O)
+  | x, [] => .ok x
+  | x, (f, inits, ops) :: rest =>
+    match configRun f inits ops x with
+    | .ok x' => reruns x' rest
+    | .err x' => reruns x' rest
     | .panic => .panic
 
 end Mem
